@@ -336,6 +336,7 @@ func main() {
 	seed := flag.Int64("seed", 1, "PRNG seed")
 	n := flag.Int("n", 40, "number of statements")
 	only := flag.String("only", "", "run only this statement text (replay), over the standard prefix")
+	deep := flag.Bool("deep", false, "also inject: failure after 2 elements, failure after 0 elements of a write")
 	flag.Parse()
 	ctx := context.Background()
 	w := bufio.NewWriter(os.Stdout)
@@ -343,6 +344,9 @@ func main() {
 	enc := json.NewEncoder(w)
 	rnd := rand.New(rand.NewSource(*seed))
 	modes := []Fault{{Mode: "before"}, {Mode: "after", J: 1}, {Mode: "write"}}
+	if *deep {
+		modes = append(modes, Fault{Mode: "after", J: 2}, Fault{Mode: "after", J: 0})
+	}
 	bulks := []int{1, 2, 3, 100}
 
 	pool := Pool(NewBlanks())
@@ -425,7 +429,7 @@ func main() {
 			ai := rnd.Intn(len(ids))
 			ci := (ai + 1 + rnd.Intn(len(ids)-1)) % len(ids) // two different calls
 			a, c := ids[ai], ids[ci]
-			r := oneRun(ctx, prefix, s, bulk, []SchedEntry{{a, modes[rnd.Intn(3)]}, {c, modes[rnd.Intn(3)]}}, b)
+			r := oneRun(ctx, prefix, s, bulk, []SchedEntry{{a, modes[rnd.Intn(len(modes))]}, {c, modes[rnd.Intn(len(modes))]}}, b)
 			r.Case, r.Prev, r.Reads = i, prev, reads
 			enc.Encode(r)
 		}
